@@ -75,6 +75,7 @@ fn main() {
                 "strtab" => gen::gen_strtab(&mut rng, n, thorough),
                 "utf8" => gen::gen_utf8(&mut rng, n, thorough),
                 "ident" => gen::gen_ident(&mut rng, n, thorough),
+                "acc" => gen::gen_acc(&mut rng, n, thorough),
                 _ => {
                     eprintln!("unknown stream {}", stream);
                     std::process::exit(2);
